@@ -1,11 +1,13 @@
 package storage
 
 import (
+	"bytes"
 	"sync"
 
 	"github.com/MixinNetwork/mixin/common"
 	"github.com/MixinNetwork/mixin/crypto"
 	vr "github.com/MixinNetwork/mixin/zzrt"
+	"github.com/dgraph-io/badger/v4"
 )
 
 // ZZNewStore: a BadgerStore over the symbolic KV model (engine) / a real in-memory Badger (replay).
@@ -23,3 +25,98 @@ func zzSnap(round uint64) *common.Snapshot {
 	s.Transactions = []crypto.Hash{zzHash()}
 	return s
 }
+
+func zzIntegerFromBytes(b []byte) common.Integer {
+	// Integer has no exported constructor from bytes: go through its JSON-free decoder path
+	dec := common.NewDecoder(append([]byte{0, byte(len(b))}, b...))
+	v, err := dec.ReadInteger()
+	if err != nil {
+		panic(err)
+	}
+	return v
+}
+
+// exported helpers for harnesses in other packages (kernel)
+func (s *BadgerStore) ZZWriteRound(hash crypto.Hash, r *common.Round) error {
+	txn := s.snapshotsDB.NewTransaction(true)
+	defer txn.Discard()
+	if err := writeRound(txn, hash, r); err != nil {
+		return err
+	}
+	return txn.Commit()
+}
+
+func (s *BadgerStore) ZZWriteLink(from, to crypto.Hash, link uint64) error {
+	txn := s.snapshotsDB.NewTransaction(true)
+	defer txn.Discard()
+	if err := writeLink(txn, from, to, link); err != nil {
+		return err
+	}
+	return txn.Commit()
+}
+
+func (s *BadgerStore) ZZDump() [][2][]byte { return zzDump(s) }
+
+func ZZSameDump(a, b [][2][]byte) bool { return zzSameDump(a, b) }
+
+// zzDump returns every (key, value) pair of the snapshots DB in key order.
+func zzDump(s *BadgerStore) [][2][]byte {
+	txn := s.snapshotsDB.NewTransaction(false)
+	defer txn.Discard()
+	it := txn.NewIterator(badger.DefaultIteratorOptions)
+	defer it.Close()
+	var out [][2][]byte
+	for it.Rewind(); it.Valid(); it.Next() {
+		v, err := it.Item().ValueCopy(nil)
+		if err != nil {
+			panic(err)
+		}
+		out = append(out, [2][]byte{it.Item().KeyCopy(nil), v})
+	}
+	return out
+}
+
+func zzSameDump(a, b [][2][]byte) bool {
+	if len(a) != len(b) {
+		return false
+	}
+	same := true
+	for i := range a {
+		same = vr.And(same, vr.And(bytes.Equal(a[i][0], b[i][0]), bytes.Equal(a[i][1], b[i][1])))
+	}
+	return same
+}
+
+func zzSet(s *BadgerStore, key, val []byte) {
+	txn := s.snapshotsDB.NewTransaction(true)
+	defer txn.Discard()
+	if err := txn.Set(key, val); err != nil {
+		panic(err)
+	}
+	if err := txn.Commit(); err != nil {
+		panic(err)
+	}
+}
+
+func zzHas(s *BadgerStore, key []byte) bool {
+	txn := s.snapshotsDB.NewTransaction(false)
+	defer txn.Discard()
+	_, err := txn.Get(key)
+	return err == nil
+}
+
+
+func zzGet(s *BadgerStore, key []byte) ([]byte, bool) {
+	txn := s.snapshotsDB.NewTransaction(false)
+	defer txn.Discard()
+	item, err := txn.Get(key)
+	if err != nil {
+		return nil, false
+	}
+	v, err := item.ValueCopy(nil)
+	if err != nil {
+		panic(err)
+	}
+	return v, true
+}
+
